@@ -376,6 +376,18 @@ def run(ck: Check):
                             "max_vtime": 600.0, "family": "static-membership"})
                 nstatic += 1
     ck.extra["static_membership_runs"] = nstatic
+    # older broker releases: random scenarios and the two-member base run under every profile
+    from simkit import profiles
+    rng_old = random.Random(ck.seed * 7121 + 606)
+    for i in range(ck.n(14, 150)):
+        sc = conssim.old_broker(conssim.gen_scenario(rng_old, 700000 + i, quiet=quiet), rng_old)
+        for c in sc["consumers"]:
+            c["_stays"] = len(c["program"]) == 5
+        sc["faults"]["plan"] = {k: v for k, v in sc["faults"]["plan"].items() if int(k) <= 25}
+        sc["cluster_events"] = [e for e in sc["cluster_events"] if e["at"] <= 4.0]
+        scs.append(sc)
+    for name in profiles.BROKER_PROFILES:
+        scs.append(conssim.old_broker(base(f"old-{name}", {}), rng_old, profile=name))
     results = conssim.run_scenarios(scs, timeout=ck.n(900, 3000))
     nbad = 0
     hist = {"failed_runs": 0, "with_live_members": 0}
